@@ -311,6 +311,24 @@ statechart:
                 clock.time = t
                 it.clock = clock
                 what = 'interpreter given a new clock showing %d' % t
+            elif c < 0.12:
+                # the deprecated way of moving the clock, `interpreter.time = v`: the very same assignment — accepted
+                # and exact when v is not below the clock's value, refused (ValueError, nothing changes) otherwise
+                v = t + rnd.choice([-3, -1, 0, 1, 2, 5])
+                before = clock.time
+                with warnings.catch_warnings():
+                    warnings.simplefilter('ignore')
+                    try:
+                        it.time = v
+                        refused = False
+                    except ValueError:
+                        refused = True
+                if refused != (v < before) or clock.time != (before if refused else v):
+                    res.violations.append('op %d of the followed interpreter: interpreter.time = %r with the clock at %r was %s and '
+                                          'the clock shows %r' % (k, v, before, 'refused' if refused else 'accepted', clock.time))
+                    return
+                t = clock.time
+                what = 'interpreter.time = %d' % v
             elif c < 0.3:
                 t += rnd.randint(1, 5)
                 clock.time = t
